@@ -18,7 +18,7 @@ const sacPdnor = 25.4
 const sacNunit = 5
 const sacVerySmall = 0.0
 
-type sacEvents struct{ ratioNeg, adimcOver, fracpOver int }
+type sacEvents struct{ ratioNeg, adimcOver, fracpOver, preGuard int }
 
 func sacSumSlice(s []float64) (sum float64) {
 	sum = 0.0
@@ -122,6 +122,9 @@ func sacTrace(rainfall, pet []float64,
 		//     Evaporation from ADIMP area and Lower zone tension water
 		e3 := 0.0
 		e5 := 0.0
+		if (e1+uprTensionWater > additionalImperviousStore || evapt > uztwm+lztwm) && ev.preGuard < 0 {
+			ev.preGuard = timestep
+		}
 		if uztwm+lztwm > sacVerySmall {
 			//      if( uztwm+lztwm > tiny(uztwm) ) then
 			e3 = math.Min((evapt-e1-e2)*lwrTensionWater/(uztwm+lztwm), lwrTensionWater)
